@@ -7,6 +7,7 @@ from pyvc import native
 def run(rep, tier, seed):
     # P: the rewind / tag-stack discipline of list matching ("no state carried from one attempt into the next")
     verify_all(rep, k_match.specs('C17'))
+    k_match.options_structural(rep, 'C17')
     rep.assumptions.append('per-class match functions under an assumed contract: return None or a mapping, leave the tag '
                            'stack depth as found; _match__inside_list and _match__inside_list_quantifier are verified '
                            'against each other\'s contract')
